@@ -65,8 +65,8 @@ def reproduce(item):
 def main(tier):
     t0 = time.time()
     if tier == "quick":
-        its = universe.one_dev(corpus.small_slice(), KINDS) + universe.one_dev(corpus.seed_ids(("fix",)), ("ALLUP", "ALLLO"))
-        bound = "1 deviation (every layout and case operator at every position) over S_q; whole-file case flips over all fixtures"
+        its = universe.one_dev(corpus.small_slice(), KINDS) + universe.one_dev(corpus.seed_ids(("fix", "cls", "gen", "big")), ("ALLUP", "ALLLO"))
+        bound = "1 deviation (every layout and case operator at every position) over S_q; whole-file case flips over all seeds"
     else:
         its = universe.one_dev(corpus.seed_ids(("fix", "cls", "gen", "big")), KINDS)
         singles = [s for s in corpus.small_slice() if s.startswith("gen/")]
